@@ -153,22 +153,24 @@ static const char* ENC_NAME[] = {"n", "v", "m"};
 
 template<int STRAT, size_t n> struct Call {
     typedef Fastor::Tensor<Rat, n, n> T2;
-    static void nopiv(const T2& A, T2& L, T2& U) {
+    // AT: a tensor (the is_tensor_v overloads) or an unevaluated expression (the !is_tensor_v overloads: evaluate, then
+    // pivot_inplace + apply_pivot_inplace on the temporary)
+    template<class AT> static void nopiv(const AT& A, T2& L, T2& U) {
         if (STRAT == 0) Fastor::lu<Fastor::LUCompType::BlockLU>(A, L, U); else Fastor::lu<Fastor::LUCompType::SimpleLU>(A, L, U);
     }
-    template<class PT> static void piv(const T2& A, T2& L, T2& U, PT& P) {
+    template<class AT, class PT> static void piv(const AT& A, T2& L, T2& U, PT& P) {
         if (STRAT == 2) Fastor::lu<Fastor::LUCompType::BlockLUPiv>(A, L, U, P); else Fastor::lu<Fastor::LUCompType::SimpleLUPiv>(A, L, U, P);
     }
 };
 
-// STRAT 0 block 1 simple 2 blockpiv 3 simplepiv ; ENC 0 (no permutation) 1 vector 2 matrix
-template<size_t n, int STRAT, int ENC> void run_lu(unsigned seed, int fam) {
+// STRAT 0 block 1 simple 2 blockpiv 3 simplepiv ; ENC 0 (no permutation) 1 vector 2 matrix ; FORM 0 tensor argument, 1 expression argument
+template<size_t n, int STRAT, int ENC, int FORM = 0> void run_lu(unsigned seed, int fam) {
     using namespace Fastor;
     static_assert((STRAT < 2) == (ENC == 0), "pivoted strategies return a permutation");
     vf::ratpool.reset();
     SMat SA; int tries = 0;
     char head[256];
-    std::snprintf(head, sizeof head, "lu n=%zu strat=%s enc=%s fam=%d seed=%u", n, STRAT_NAME[STRAT], ENC_NAME[ENC], fam, seed);
+    std::snprintf(head, sizeof head, "lu n=%zu strat=%s enc=%s form=%d fam=%d seed=%u", n, STRAT_NAME[STRAT], ENC_NAME[ENC], FORM, fam, seed);
     if (!gen_input(seed, fam, n, STRAT >= 2, SA, tries)) { std::printf("note: %s no admissible input found\n", head); return; }
     Tensor<Rat, n, n> A;
     for (size_t i = 0; i < n * n; ++i) A.data()[i] = Rat::make(SA[i].n, SA[i].d);
@@ -178,10 +180,16 @@ template<size_t n, int STRAT, int ENC> void run_lu(unsigned seed, int fam) {
     // the outputs hold junk before the call: every entry the property speaks about must be written by the library
     Tensor<Rat, n, n> L, U, Pm; L.fill(Rat(7)); U.fill(Rat(-5)); Pm.fill(Rat(3));
     Tensor<size_t, n> Pv; Pv.fill(999);
-    Tensor<Rat, n, n> R;
-    if (ENC == 0) { Call<STRAT, n>::nopiv(A, L, U); R = reconstruct(L, U); }
-    else if (ENC == 1) { Call<STRAT, n>::piv(A, L, U, Pv); R = reconstruct(L, U, Pv); }
-    else { Call<STRAT, n>::piv(A, L, U, Pm); R = reconstruct(L, U, Pm); }
+    Tensor<Rat, n, n> R, Z; Z.fill(Rat(0));
+    if (FORM == 0) {
+        if (ENC == 0) { Call<STRAT, n>::nopiv(A, L, U); R = reconstruct(L, U); }
+        else if (ENC == 1) { Call<STRAT, n>::piv(A, L, U, Pv); R = reconstruct(L, U, Pv); }
+        else { Call<STRAT, n>::piv(A, L, U, Pm); R = reconstruct(L, U, Pm); }
+    } else {
+        if (ENC == 0) { Call<STRAT, n>::nopiv(A + Z, L, U); R = reconstruct(L, U); }
+        else if (ENC == 1) { Call<STRAT, n>::piv(A + Z, L, U, Pv); R = reconstruct(L, U, Pv); }
+        else { Call<STRAT, n>::piv(A + Z, L, U, Pm); R = reconstruct(L, U, Pm); }
+    }
     // ---- oracle
     std::string why;
     for (size_t i = 0; i < n * n && why.empty(); ++i) if (!(A.data()[i] == A0.data()[i])) why = "input-modified";
